@@ -886,3 +886,8 @@ where
         FEither::Right((_, read_fut)) => read_fut.await,
     }
 }
+
+#[cfg(feature = "verif_hooks")]
+pub mod verif_hooks {
+    pub use super::envelopes::ReconEncoder;
+}
